@@ -1,6 +1,6 @@
 """C03 -- leaving a region re-synchronises X/Y/Z, mode, units, Z order (E1, FilterWorld)."""
 from ..engine import Scenario
-from ..world import World
+from ..world import World, no_relative_disable
 
 NONTRIVIAL = {"resync-by-move", "resync-by-disable"}
 RULE = ("breadth-first enumeration of all event histories over the scenario menu (travel/print moves, "
@@ -22,7 +22,7 @@ def scenarios(tier):
         Scenario("c03-abs-mm", World, dict(prop="C03", monitors=mon, regions=["R"], emax=1),
                  MOVES + [("RETRACT",), ("RECOVER",), ("ESET0",), ("AT", "ExcludeRegion", "disable")],
                  max_states=100000 if q else 1000000),
-        Scenario("c03-rel-mm", World, dict(prop="C03", monitors=mon, regions=["R"], emax=1),
+        Scenario("c03-rel-mm", World, dict(prop="C03", monitors=mon, regions=["R"], emax=1, guard=no_relative_disable),
                  MOVES + [("REL",), ("ABS",), ("AT", "ExcludeRegion", "disable")],
                  max_depth=6 if q else 9, max_states=3000000),
         Scenario("c03-inch", World, dict(prop="C03", monitors=mon, regions=["R"], emax=1),
